@@ -264,8 +264,8 @@ def gen_case(rng, small: bool = False) -> Dict[str, Any]:
     plans = []
     seen: set = set()
     mode = rng.random()
-    # a bare indirect reference as the value of a compressed object is legal but rare: generated in ~4% of cases
-    bare_ref = rng.random() < 0.04
+    # a bare indirect reference as the whole value of a compressed object is legal (was an open finding, now fixed)
+    bare_ref = True
     for k, rv in enumerate(revs):
         nums = [int(n) for n in rv["defs"]]
         if mode < 0.15:
@@ -639,7 +639,7 @@ def report_failure(ctx: C.Ctx, case: Dict[str, Any], r, queries: List[int]) -> N
     # bounded work on a broken tree: shrink the first two failures of each kind, record a few more as found
     k = _REPORTED.get(what, 0)
     _REPORTED[what] = k + 1
-    if k >= 8 and not has_bare_ref_member(case):
+    if k >= 8:
         return
     small = shrink_case(case, config, queries, what) if (k < 2 and ctx.time_left()) else case
     r2 = check_case(None, small, [config], queries)
@@ -1060,9 +1060,6 @@ def has_bare_ref_member(case: Dict[str, Any]) -> bool:
 
 
 CLASSIFIERS = {
-    # open: `3 0 R` as the whole value of a compressed object
-    "c02_objstm_bare_reference_member": lambda f: f.input.get("kind") == "history"
-    and f.tags.get("what") in ("getobj", "open", "catalog", "info") and has_bare_ref_member(f.input["case"]),
     # open: the damaged cross-reference data still parses, so PDFNoValidXRef is never raised and the body is not scanned
     "c02_damaged_xref_parses_no_rescan": lambda f: f.input.get("kind") == "damaged"
     and f.tags.get("damage") in ("table-offsets", "startxref-num") and f.tags.get("fallback_used") is False
@@ -1108,7 +1105,7 @@ def run_history_cases(ctx: C.Ctx) -> None:
         r = check_case(ctx, case, configs, queries)
         if r is not None:
             report_failure(ctx, case, r, queries)
-        if not has_bare_ref_member(case):
+        if True:
             exp = spec_observe(revs, layout, queries)
             tie_case(ctx, case, data, layout, revs, queries, exp, BUFSIZES if i % 3 == 0 else [bs[0], bs[1], 4096])
 
